@@ -64,6 +64,10 @@ type Server struct {
 	// receive-pack session
 	updates  map[string]*payload.Update
 	receiver *apiutils.ObjectReceiver
+
+	sessionSeq int
+	upSession  string
+	rpSession  string
 }
 
 // New starts a server over the given stores.
@@ -171,7 +175,14 @@ func (s *Server) handleUploadPack(w http.ResponseWriter, r *http.Request) {
 			return
 		}
 	}
-	http.SetCookie(w, &http.Cookie{Name: "upload-pack-session-id", Value: "ref-session", Path: "/"})
+	// sessions are identified by a cookie: a request without it (a new client process) starts a new
+	// session and abandons whatever an interrupted client left behind
+	if ck, err := r.Cookie("upload-pack-session-id"); err != nil || ck.Value != s.upSession {
+		s.finder, s.sender, s.candTables, s.tables, s.inTableNeg = nil, nil, nil, nil, false
+		s.sessionSeq++
+		s.upSession = fmt.Sprintf("up-%d", s.sessionSeq)
+	}
+	http.SetCookie(w, &http.Cookie{Name: "upload-pack-session-id", Value: s.upSession, Path: "/"})
 	switch {
 	case s.sender != nil:
 		// "empty request = next packfile"
@@ -259,7 +270,12 @@ func (s *Server) handleReceivePack(w http.ResponseWriter, r *http.Request) {
 	s.mu.Lock()
 	defer s.mu.Unlock()
 	s.Stats.ReceivePackRequests++
-	http.SetCookie(w, &http.Cookie{Name: "receive-pack-session-id", Value: "ref-session", Path: "/"})
+	if ck, err := r.Cookie("receive-pack-session-id"); err != nil || ck.Value != s.rpSession {
+		s.updates, s.receiver = nil, nil
+		s.sessionSeq++
+		s.rpSession = fmt.Sprintf("rp-%d", s.sessionSeq)
+	}
+	http.SetCookie(w, &http.Cookie{Name: "receive-pack-session-id", Value: s.rpSession, Path: "/"})
 	ct := r.Header.Get("Content-Type")
 	if strings.Contains(ct, ctJSON) {
 		req := &payload.ReceivePackRequest{}
